@@ -302,3 +302,81 @@ Proof.
     destruct H2 as [H2|[H2 _]]; discriminate H2.
   - split; vm_compute; reflexivity.
 Qed.
+
+(* ==== wave 7: RegionCreator's bookkeeping and cleanup_regions ================================================== *)
+From PV Require Import model.DfxpClean proofs.Pos12RegionFacts proofs.Pos12CleanFacts.
+
+(* equal layouts get the same region - in any table (dict.get under coherent == / hash, C18) *)
+Theorem C12_region_equal_layouts_share : forall m a b, layout_eqb a b = true ->
+  region_lookup m (Some a) = region_lookup m (Some b).
+Proof. exact region_lookup_compat. Qed.
+Print Assumptions C12_region_equal_layouts_share.
+
+(* layouts of the caption set that need a region share one EXACTLY when they are equal: deduplication is complete
+   (equal layouts never get two regions) and sound (different layouts never land in one region, the default included) *)
+Theorem C12_region_shared_iff_equal : forall ls a b, In (Some a) ls -> In (Some b) ls -> has_region a = true -> has_region b = true ->
+  (region_lookup (region_map ls) (Some a) = region_lookup (region_map ls) (Some b) <-> layout_eqb a b = true).
+Proof. exact region_shared_iff_equal. Qed.
+Print Assumptions C12_region_shared_iff_equal.
+
+(* the table itself: no two entries are made from equal layouts (default region included) ... *)
+Theorem C12_region_keys_pairwise_different : forall ls, ldistinct (map fst (region_map ls)).
+Proof. exact region_map_keys_distinct. Qed.
+Print Assumptions C12_region_keys_pairwise_different.
+
+(* ... the ids are r0, r1, ..., r(n-1) in creation order without gap or repetition, then the default region ... *)
+Theorem C12_region_ids_sequential : forall ls,
+  map snd (region_map ls) = map (fun n => RId (Z.of_nat n)) (seq 0 (length (created_keys ls))) ++ [RDefault].
+Proof. exact region_map_ids. Qed.
+Print Assumptions C12_region_ids_sequential.
+
+(* ... and every created region comes from a layout that occurs in the caption set, has some positioning part and is
+   not the default region *)
+Theorem C12_region_created_from_occurring_layouts : forall ls k, In k (created_keys ls) ->
+  In (Some k) ls /\ has_region k = true /\ layout_eqb k dfxp_default_region = false.
+Proof. exact created_keys_occur. Qed.
+Print Assumptions C12_region_created_from_occurring_layouts.
+
+(* cleanup_regions (unreferenced <region>s are removed before the document is printed): for EVERY document the reader's
+   result is unchanged - the reader only ever resolves ids that occur as region attributes (own / ancestor / descendant) *)
+Theorem C12_cleanup_keeps_readback : forall d, read_doc (cleanup_regions d) = read_doc d.
+Proof. exact cleanup_read_invariant. Qed.
+Print Assumptions C12_cleanup_keeps_readback.
+
+(* the written document: its <region> elements are exactly the regions its div / p / span elements refer to - no
+   dangling reference (the failure that silently lands a caption in the default region), no orphan region *)
+Theorem C12_written_regions_exact : forall g s r,
+  In r (doc_refs (write_doc g s)) <-> exists a, In (r, a) (x_regions (write_doc_clean g s)).
+Proof. exact written_regions_exact. Qed.
+Print Assumptions C12_written_regions_exact.
+
+Theorem C12_written_region_ids_unique : forall g s id a b,
+  In (id, a) (x_regions (write_doc_clean g s)) -> In (id, b) (x_regions (write_doc_clean g s)) -> a = b.
+Proof. exact clean_region_ids_unique. Qed.
+Print Assumptions C12_written_region_ids_unique.
+
+(* the tree-level round trip on the document AS WRITTEN (region table, body, cleanup): same statement as
+   C12_dfxp_layout_roundtrip, now about write_doc_clean - the model request 1211 compares with the real document *)
+Theorem C12_dfxp_layout_roundtrip_written : forall langs, Forall opt_nonneg (set_layouts (map to_dlang langs)) ->
+  Forall lang_harmless langs ->
+  exists obs, dfxp_roundtrip_clean None (map to_dlang langs) = Ok obs /\ Forall2 lang_rel obs langs.
+Proof. exact dfxp_layout_roundtrip_clean. Qed.
+Print Assumptions C12_dfxp_layout_roundtrip_written.
+
+(* region table of [A; A written as 2/4; B; the default region; a BREAK-node layout C]: A and its twin share r0, the
+   default region gets no new region; in the document a region nobody refers to (C, carried by a break node only) is
+   removed by the cleanup, r0 and r1 stay *)
+Example C12_ex_region_table :
+  let s v := mkSize v PCT in
+  let A := mkLayout (Some (mkPoint (s (1 # 2)) (s (10 # 1)))) None None None None in
+  let A' := mkLayout (Some (mkPoint (s (2 # 4)) (s (20 # 2)))) None None None (Some (lit "line:1")) in
+  let B := mkLayout (Some (mkPoint (s (30 # 1)) (s (5 # 1)))) None None None None in
+  let C := mkLayout (Some (mkPoint (s (70 # 1)) (s (70 # 1)))) None None None None in
+  region_map [Some A; Some A'; None; Some B; Some dfxp_default_region] = [(A, RId 0); (B, RId 1); (dfxp_default_region, RDefault)]
+  /\ region_lookup (region_map [Some A; Some A'; Some B]) (Some A') = RId 0
+  /\ (let doc := write_doc None [mkDlang (Some A) [mkDcap (Some B) [mkD 1 false false None 1; mkD 3 false false (Some C) 0;
+                                                                   mkD 2 true true (Some A') 0; mkD 1 false false (Some A') 2]]] in
+      map fst (x_regions doc) = [RId 0; RId 1; RId 2; RDefault]
+      /\ map fst (x_regions (cleanup_regions doc)) = [RId 0; RId 1]
+      /\ doc_refs doc = [RId 0; RId 1; RId 0]).
+Proof. vm_compute. repeat split. Qed.
